@@ -8,6 +8,7 @@
   `in` gap of the fold, etc.
 -/
 import LyonVerif.Lemmas.SweepSafeScan
+import LyonVerif.Model.Tess.SweepCert
 
 set_option linter.unusedSectionVars false
 set_option linter.unusedVariables false
@@ -19,17 +20,6 @@ open Lyon Lyon.Scalar Lyon.Mono Lyon.Sweep Lyon.EQ Lyon.SweepSafe
 open Std.Do
 
 variable {α : Type} [Scalar α] [Wide α]
-
-/-- one edge of the active list -/
-def wstep (rule : Slab.Rule) (w : WindingState) (e : ActiveEdge α) : WindingState :=
-  if e.isMerge then { w with spanIndex := w.spanIndex + 1 } else w.update rule e.winding
-
-/-- the winding state after the edges `l`, starting from `w` -/
-def wfold (rule : Slab.Rule) (w : WindingState) (l : List (ActiveEdge α)) : WindingState :=
-  l.foldl (wstep rule) w
-
-/-- the winding state left of position `k` of the active list -/
-def Wat (s : St α) (k : Nat) : WindingState := wfold s.rule WindingState.new (s.active.toList.take k)
 
 theorem wfold_append (rule : Slab.Rule) (w : WindingState) (l m : List (ActiveEdge α)) :
     wfold rule w (l ++ m) = wfold rule (wfold rule w l) m := by simp [wfold, List.foldl_append]
